@@ -5708,7 +5708,8 @@ evdns_getaddrinfo_gotresolve(int result, char type, int count,
 			else
 				res = evutil_addrinfo_append_(
 				    data->pending_result, res);
-			res_ttl = data->pending_result_ttl;
+			/* the merged list is valid as long as its shorter-lived half */
+			res_ttl = MIN(ttl, data->pending_result_ttl);
 			data->pending_result = NULL;
 		}
 
